@@ -118,3 +118,20 @@ Example C01_fn_example : wf_fn ex_fn 3 /\ smooth_fn ex_fn [1; 2; 3] /\ hsmooth_f
 Proof. exact example_fn. Qed.
 Example C01_cdevice2_ranges_example : cb_chain [(1, 2, 0%nat, 2%nat); (3, 5, 2%nat, 4%nat)] 4.
 Proof. exact example_cb_chain. Qed.
+
+(* ---- every real exponent b > 0 (the executable instance covers integers; here x ** b is Rpower for non-integers) ---- *)
+From DK.Proofs Require Import RealExp.
+
+Theorem C01_kernel_abc_any_real_exponent : forall x a b c xl xh, (xl = xh \/ 0 < abc_q (A:=R) x xl xh a) ->
+  is_derive (fun t => abc_cost (A:=R) t a b c xl xh) x (abc_deriv (A:=R) x a b c xl xh).
+Proof. exact abc_cost_derive_real. Qed.
+
+Theorem C01_idevice_any_real_exponent : forall n b cb a bp c (s p : list R), List.length s = n -> List.length p = n ->
+  q_positive a b s ->
+  grad_at (fun s' => leaf_cost (Build_leafdev n b cb (KI a bp c)) s' p) (leaf_deriv (Build_leafdev n b cb (KI a bp c)) s p) s.
+Proof. exact grad_idevice_real. Qed.
+
+(* q > 0 at every flow below the upper bound when a >= 0 (which the validator enforces) *)
+Theorem C01_q_positive_below_upper_bound : forall a b (s : list R),
+  (forall i, (i < List.length s)%nat -> 0 <= pnth a i /\ (lo b i = hi b i \/ lo b i <= nth i s 0 < hi b i)) -> q_positive a b s.
+Proof. exact q_positive_interior. Qed.
